@@ -220,6 +220,12 @@ func (ex *Exec) event(e Event) {
 		e.Guard = append([]Lit(nil), ex.curState.Guard...)
 	}
 	ex.Events = append(ex.Events, e)
+	if e.Kind == EvIndexOOB && ex.curState != nil {
+		// an index, slice bound or slice-to-array conversion that constant propagation shows to be out of range on this
+		// path is a run-time panic: it is recorded as a reachable panic (with the path guard), so that every rule that
+		// demands "no panic is reachable" decides it, not only the rules that read the event list
+		ex.Panics = append(ex.Panics, Exit{Guard: append([]Lit(nil), ex.curState.Guard...), St: ex.curState, Pos: e.Pos, Msg: "index out of range: " + e.Msg, Stack: ex.stackNames()})
+	}
 }
 
 func (ex *Exec) stackNames() []string {
